@@ -339,6 +339,27 @@ def impl_search(ctx: Ctx, budget_s, scale, open_ids):
             if m2 != meta or len(c2) != len(cmds) or not all((op_eq(a, b) if hasattr(a, "command") else a == b) for a, b in zip(c2, cmds)):
                 report("header + commands do not come back from the rendered plan", plan=plan, metadata=meta, observed_metadata=m2,
                        observed=[getattr(c, "expr", getattr(c, "text", None)) for c in c2])
+            else:
+                # the holder of a parse result may edit it (the API does: get_initial_plan_from_baseline writes into the metadata):
+                # parsing the SAME text again must still give what the text says, not the edited object
+                import copy as _copy
+                want = _copy.deepcopy(meta)
+                if isinstance(m2, dict):
+                    m2["__edited_by_the_holder__"] = {"x": 1}
+                    for k in list(m2):
+                        if isinstance(m2[k], dict):
+                            m2[k]["__edited__"] = True
+                for c in c2:
+                    if hasattr(c, "name") and hasattr(c, "command"):
+                        try:
+                            c.name = "edited"
+                        except Exception:
+                            pass
+                m3, c3 = p.parse_simaple_runtime(plan)
+                if m3 != want or len(c3) != len(cmds) or not all((op_eq(a, b) if hasattr(a, "command") else a == b) for a, b in zip(c3, cmds)):
+                    report("parsing the same plan text again, after the holder of the first result edited it, does not give back the header "
+                           "and commands of the text", plan=plan, metadata=want, observed_metadata=m3,
+                           observed=[getattr(c, "expr", getattr(c, "text", None)) for c in c3])
         except Exception as e:
             report("rendered header + commands do not parse", plan=plan, observed=str(e)[:200])
     try:
